@@ -20,11 +20,18 @@ Inductive ract :=
                                               between this point and the next observation *)
 | RObs (o : obs).
 
+(* joined shapes: mutations of the sub-collections (one at a time, each followed by quiescence), handler
+   registrations, observations of the joined collection *)
+Inductive jstep :=
+| JPut (sub k v : N) | JDel (sub k : N) | JRegister (h : N)
+| JObs (l : list (key * N)) (gets : list (key * option N)) (evs : list (N * list oev)).
+
 Inductive case :=
+| JoinHist (id kind nsubs : N) (steps : list jstep)   (* kind 0 JoinCollection, 1 WithJoinUnchecked, 2 JoinWithMergeCollection *)
 | Hist (id : N) (univ : list key) (progs : list (N * prog)) (acts : list ract)
 (* late registration under churn: final contents, and per handler (kept until quiescence?, its whole stream) *)
 | Churn (id : N) (final : list (key * N)) (streams : list (bool * list oev)).
-Definition case_id c := match c with Hist id _ _ _ => id | Churn id _ _ => id end.
+Definition case_id c := match c with Hist id _ _ _ => id | Churn id _ _ => id | JoinHist id _ _ _ => id end.
 
 Definition prog_of (ps : list (N * prog)) (n : N) : prog :=
   match find (fun x => N.eqb (fst x) n) ps with
@@ -188,8 +195,56 @@ Definition churn_ok (final : list (key * N)) (streams : list (bool * list oev)) 
       forallb (fun e => match replay (snd ks) (oev_key e) with
                         | Some _ => memb (oev_key e) (map fst final) | None => true end) (snd ks)))) streams.
 
+(* ---- joined shapes: independent recomputation from the sub-collections' contents *)
+Definition merge_vals (vs : list N) : N := fold_left (fun acc v => acc * 10 + v + 1) vs 0.
+Definition holders (subs : N -> fmap N) (n : nat) (k : key) : list N :=
+  flat_map (fun i => match subs (N.of_nat i) k with Some v => [v] | None => [] end) (seq 0 n).
+Definition jspec (kind : N) (subs : N -> fmap N) (n : nat) (k : key) : option N :=
+  match holders subs n k with
+  | [] => None
+  | v :: r => if N.eqb kind 2 then Some (merge_vals (v :: r)) else Some v      (* first collection wins *)
+  end.
+(* JoinCollection forwards its sub-collections' events without comparing old and new (taking over a key with
+   an equal object yields Update(o, o)): its streams are checked without the "no no-op Update" clause *)
+Definition ev_wf_weak (m : fmap N) (e : oev) : bool :=
+  match e with
+  | EUpd k o _ => match m k with Some x => N.eqb x o | None => false end
+  | _ => ev_wf m e
+  end.
+Fixpoint stream_wf_weak (m : fmap N) (evs : list oev) : bool :=
+  match evs with [] => true | e :: r => ev_wf_weak m e && stream_wf_weak (apply_ev m e) r end.
+Record jst := { j_subs : N -> fmap N; j_keys : list key; j_hist : list (N * list oev); j_ok : bool }.
+Definition jstep_eval (kind : N) (n : nat) (s : jst) (x : jstep) : jst :=
+  match x with
+  | JPut i k v => {| j_subs := fun i' => if N.eqb i' i then fset (j_subs s i) k (Some v) else j_subs s i';
+                     j_keys := addk k (j_keys s); j_hist := j_hist s; j_ok := j_ok s |}
+  | JDel i k => {| j_subs := fun i' => if N.eqb i' i then fset (j_subs s i) k None else j_subs s i';
+                   j_keys := j_keys s; j_hist := j_hist s; j_ok := j_ok s |}
+  | JRegister h => {| j_subs := j_subs s; j_keys := j_keys s; j_hist := j_hist s ++ [(h, [])]; j_ok := j_ok s |}
+  | JObs l gets evs =>
+      let sp := jspec kind (j_subs s) n in
+      let hist := map (fun h => (fst h, snd h ++ hist_of evs (fst h))) (j_hist s) in
+      let present := filter (fun k => match sp k with Some _ => true | None => false end) (j_keys s) in
+      {| j_subs := j_subs s; j_keys := j_keys s; j_hist := hist;
+         j_ok := j_ok s &&
+           forallb (fun kv => optN_eqb (sp (fst kv)) (Some (snd kv))) l &&
+           Nat.eqb (List.length l) (List.length present) && nodupb (map fst l) &&
+           forallb (fun kv => optN_eqb (sp (fst kv)) (snd kv)) gets &&
+           Nat.eqb (List.length evs) (List.length (j_hist s)) &&
+           forallb (fun he =>
+             (if N.eqb kind 2 then stream_wf fempty (snd he) else stream_wf_weak fempty (snd he)) &&
+             forallb (fun k => optN_eqb (replay (snd he) k) (sp k)) (j_keys s) &&
+             forallb (fun e => optN_eqb (replay (snd he) (oev_key e)) (sp (oev_key e))) (snd he)) hist |}
+  end.
+Definition join_ok (kind nsubs : N) (steps : list jstep) : bool :=
+  j_ok (fold_left (jstep_eval kind (N.to_nat nsubs)) steps
+          {| j_subs := fun _ => fempty; j_keys := []; j_hist := []; j_ok := true |}).
+
 Definition eval_case (c : case) : rst :=
   match c with
+  | JoinHist _ kind nsubs steps =>
+      {| r_w := w0; r_trace := []; r_seen := []; r_hist := []; r_hyp := true; r_model := true;
+         r_prop := join_ok kind nsubs steps |}
   | Hist _ u ps acts => reval u (prog_of ps) acts
   | Churn _ final streams =>
       {| r_w := w0; r_trace := []; r_seen := []; r_hist := []; r_hyp := true; r_model := true;
